@@ -31,23 +31,24 @@ RULE = (
     "case = one fresh Environment/Factory + 12-16 randomised harness engines (random modes, supported feature sets drawn "
     "around the built-in engines' kinds, guarantees, plan kinds, compilation kinds with random kind transformers) + a default/"
     "shuffled/truncated preference list + 12 requests (every operation mode; problem kinds = random subsets of some registered "
-    "engine's supported kind plus 0-1 foreign feature; optional requirement; pipelines of 2-3 compilation kinds). "
+    "engine's supported kind plus 0-1 foreign feature, stated at the latest version or - re-spelt in the older vocabulary - at "
+    "version 1, 2 or without a version; optional requirement; pipelines of 2-3 compilation kinds). "
     "evaluations = judged _get_engine calls. distinct_nontrivial = distinct (mode, requirements, kind, preference list, outcome) "
     "requests in which the own scan rejected at least one engine of the requested mode before the chosen one / before the error "
     "(for pipelines: at some stage)."
 )
 ASSUMPTIONS = [
     "library engine classes answer supports/satisfies/ensures/supports_plan/supports_compilation truthfully about themselves",
-    "ProblemKind.<= on same-version kinds without deprecated features is feature-set inclusion (C33 monitors it independently)",
+    "ProblemKind.<= (with its version upgrade of the older operand) defines 'supports' for harness engines (C33 monitors it independently)",
     "selection by explicit engine name and Parallel engines are out of the statement's scope and are only counted",
 ]
 
-N_CASES = {"quick": 800, "thorough": 10000}
+N_CASES = {"quick": 720, "thorough": 10000}
 REQS_PER_CASE = 12
 
 
 def plan(tier, seed):
-    return simple_plan(PROPERTY, tier, seed, N_CASES["quick"], N_CASES["thorough"], shards_quick=16)
+    return simple_plan(PROPERTY, tier, seed, N_CASES["quick"], N_CASES["thorough"], shards_quick=8)
 
 
 def run_shard(spec, res):
@@ -135,9 +136,59 @@ def gen_kind(rng, kinds_pool, universe):
     return sorted(feats)
 
 
+# how a latest-version feature was spelt in version 1 (inverse of the documented upgrade rules) and the version-1 era
+# features whose upgrade derives new ones
+V1_SPELLING = {
+    "INT_FLUENTS": ["NUMERIC_FLUENTS", "DISCRETE_NUMBERS"],
+    "REAL_FLUENTS": ["NUMERIC_FLUENTS", "CONTINUOUS_NUMBERS"],
+    "INT_NUMBERS_IN_ACTIONS_COST": ["ACTIONS_COST"],
+    "REAL_NUMBERS_IN_ACTIONS_COST": ["ACTIONS_COST"],
+    "INT_NUMBERS_IN_OVERSUBSCRIPTION": ["OVERSUBSCRIPTION"],
+    "REAL_NUMBERS_IN_OVERSUBSCRIPTION": ["OVERSUBSCRIPTION"],
+    "INT_TYPE_DURATIONS": ["DISCRETE_TIME"],
+    "REAL_TYPE_DURATIONS": ["CONTINUOUS_TIME"],
+}
+V1_ERA = ["NUMERIC_FLUENTS", "DISCRETE_NUMBERS", "CONTINUOUS_NUMBERS", "ACTIONS_COST", "OVERSUBSCRIPTION", "CONTINUOUS_TIME", "DISCRETE_TIME"]
+
+
+def _added_in(f):
+    from unified_planning.model.problem_kind_versioning import FEATURES_VERSIONS
+
+    return FEATURES_VERSIONS.get(f, (1, None))[0]
+
+
+def gen_versioned_kind(rng, kinds_pool, universe):
+    """-> (features, declared version): latest version, or the kind stated in version 1 / 2 / without a version (then the
+    features are re-spelt in the older vocabulary where one exists, plus 0-3 version-1 era features)."""
+    from unified_planning.model.problem_kind_versioning import LATEST_PROBLEM_KIND_VERSION as LATEST
+
+    feats = gen_kind(rng, kinds_pool, universe)
+    x = rng.random()
+    if x < 0.55:
+        return feats, LATEST
+    ver = rng.choice([1, 1, 2, None, None])
+    if ver is None and rng.random() < 0.3:
+        return feats, None  # version inferred from latest-era features
+    out = set()
+    respell = ver != 2 or rng.random() < 0.3
+    for f in feats:
+        if f in V1_SPELLING and (respell or _added_in(f) > (ver or 1)):
+            out.update(V1_SPELLING[f])
+        else:
+            out.add(f)
+    for _ in range(rng.choice([0, 0, 1, 2, 3])):
+        out.add(rng.choice(V1_ERA))
+    if rng.random() < 0.3:
+        out = {f for f in out if f in V1_ERA or f in ("ACTION_BASED", "FLAT_TYPING", "NEGATIVE_CONDITIONS")} or {"ACTION_BASED"}
+    lim = ver if ver is not None else (1 if rng.random() < 0.7 else LATEST)
+    out = {f for f in out if _added_in(f) <= lim}
+    return sorted(out), ver
+
+
 def gen_request(rng, kinds_pool, universe, cks_all, cks_registered):
     mode = rng.choice(ALL_MODES + ["anytime_planner", "anytime_planner", "plan_repairer", "compiler", "pipeline", "pipeline", "pipeline"])
-    req = {"mode": mode, "kind": gen_kind(rng, kinds_pool, universe)}
+    feats, ver = gen_versioned_kind(rng, kinds_pool, universe)
+    req = {"mode": mode, "kind": feats, "version": ver}
     opt = rng.random() < 0.7
     if mode in ("oneshot_planner", "replanner", "portfolio_selector"):
         req["og"] = rng.choice(OG) if opt else None
@@ -230,7 +281,11 @@ def run_case(key, tier, res, only_request=None):
             req = gen_request(rng, kinds_pool, universe, cks_all, cks_registered)
             if only_request is not None and ri != only_request:
                 continue
-            kind = ProblemKind(req["kind"], version=LATEST_PROBLEM_KIND_VERSION)
+            kind = ProblemKind(req["kind"], version=req["version"])  # handed to the factory (comparisons may mutate it)
+            pristine = ProblemKind(req["kind"], version=req["version"])  # the request as stated: what the monitor judges
+            vtag = "none" if req["version"] is None else str(req["version"])
+            if sorted(M.at_latest(pristine).features) != sorted(pristine.features):
+                vtag += ":changed-by-upgrade"
             s = (lambda e: e.name if req["as_string"] and e is not None else e)
             og = OptimalityGuarantee[req["og"]] if req.get("og") else None
             ag = AnytimeGuarantee[req["ag"]] if req.get("ag") else None
@@ -273,10 +328,11 @@ def run_case(key, tier, res, only_request=None):
             if mres is not out or (mexc is not exc and mexc is not None):
                 res.count("public_wrapper_changed_outcome")
             res.mon()
+            res.count(f"kind_version:{vtag}:{_outcome(mexc)}")
             if mode == "pipeline":
-                judge_pipeline(res, w, engines, args, kind, cks, mres, mexc)
+                judge_pipeline(res, w, engines, args, pristine, cks, mres, mexc)
             else:
-                judge_single(res, w, engines, args, mode, kind, og, ck, pk, ag, mres, mexc)
+                judge_single(res, w, engines, args, mode, pristine, og, ck, pk, ag, mres, mexc)
     finally:
         uninstall()
 
@@ -334,7 +390,7 @@ def judge_single(res, w, engines, args, mode, kind, og, ck, pk, ag, out, exc):
             )
             return
         if rejected:
-            res.nt(("single", mode, reqs, sorted(kind.features), h(pref), oc))
+            res.nt(("single", mode, reqs, sorted(kind.features), w["request"]["version"], h(pref), oc))
         return
     # returned
     cls = type(out)
@@ -357,7 +413,7 @@ def judge_single(res, w, engines, args, mode, kind, og, ck, pk, ag, out, exc):
     for _, why2 in before:
         res.count("rejected-before-chosen:" + why2)
     if before:
-        res.nt(("single", mode, reqs, sorted(kind.features), h(pref), oc))
+        res.nt(("single", mode, reqs, sorted(kind.features), w["request"]["version"], h(pref), oc))
     if res.evaluations % 97 == 0:
         res.sample({"request": w["request"], "returned": w["returned"], "rejected_before": before[:4], "verdict": "honours every requirement"})
 
@@ -371,7 +427,7 @@ def judge_pipeline(res, w, engines, args, kind, cks, out, exc):
     res.count(f"mode:pipeline:{oc}")
     res.count(f"pipeline_len:{len(cks)}")
     # own exploration of every choice sequence: does some qualifying choice path dead-end? does one complete?
-    frontier = {tuple(sorted(kind.features)): kind}
+    frontier = {(tuple(sorted(kind.features)), kind.version): kind}
     dead_end_stage = None
     any_rejected = False
     rpk_raises = []
@@ -389,13 +445,24 @@ def judge_pipeline(res, w, engines, args, kind, cks, out, exc):
                 except Exception as e:
                     rpk_raises.append((n, type(e).__name__))
                     continue
-                nxt[tuple(sorted(rk.features))] = rk
+                nxt[(tuple(sorted(rk.features)), rk.version)] = rk
         frontier = nxt
         if not frontier:
             complete = False
             break
     w = dict(w, outcome=oc, own_scan={"dead_end_stage": dead_end_stage, "some_path_completes": complete, "resulting_kind_raises": rpk_raises[:4]})
     if exc is not None and oc != "no-suitable":
+        if (
+            isinstance(exc, AssertionError)
+            and w["request"]["version"] in (1, 2)
+            and M.innermost_site(exc).endswith("_set")
+            and "declared version" in str(exc)
+        ):
+            # a library compiler's resulting_problem_kind() sets a newer feature on a clone of a kind whose DECLARED version
+            # is older (e.g. DurativeActionToProcesses -> PROCESSES on a version-1/2 kind): the compiler cannot state its
+            # output kind at all. That is the compiler's declaration contract, not the selection -> counted, not judged here.
+            res.count("dontcare:pipeline-older-declared-version:resulting-kind-raises")
+            return
         if isinstance(exc, _env.INTERNAL_EXC) or not isinstance(exc, UPUsageError):
             res.violation(
                 f"factory-raises:{type(exc).__name__}@{M.innermost_site(exc)}",
@@ -414,7 +481,7 @@ def judge_pipeline(res, w, engines, args, kind, cks, out, exc):
             )
             return
         if any_rejected:
-            res.nt(("pipeline", [c.name for c in cks], sorted(kind.features), h(pref), oc))
+            res.nt(("pipeline", [c.name for c in cks], sorted(kind.features), w["request"]["version"], h(pref), oc))
         return
     if not isinstance(out, CompilersPipeline) or len(out._compilers) != len(cks):
         res.violation("pipeline-shape", f"expected a CompilersPipeline of {len(cks)} compilers, got {out!r}", w)
@@ -444,7 +511,7 @@ def judge_pipeline(res, w, engines, args, kind, cks, out, exc):
             return
     res.count("pipeline_stages_checked", len(cks))
     if any_rejected:
-        res.nt(("pipeline", [c.name for c in cks], sorted(kind.features), h(pref), oc))
+        res.nt(("pipeline", [c.name for c in cks], sorted(kind.features), w["request"]["version"], h(pref), oc))
     if len(cks) >= 2 and res.evaluations % 53 == 0:
         res.sample({"request": w["request"], "returned_pipeline": names, "verdict": "every stage supports the folded kind"})
 
@@ -481,6 +548,10 @@ def thresholds(m):
         out.append("fewer than 50 pipeline requests of length >= 2")
     if c.get("pipeline_stages_checked", 0) < 50:
         out.append("fewer than 50 pipeline stages checked")
+    for vt in ("1", "2", "3", "none", "1:changed-by-upgrade", "none:changed-by-upgrade"):
+        for oc in ("returned", "no-suitable"):
+            if c.get(f"kind_version:{vt}:{oc}", 0) < 15:
+                out.append(f"fewer than 15 requests with a kind of version {vt} and outcome {oc} ({c.get(f'kind_version:{vt}:{oc}', 0)})")
     if len(m["nontrivial"]) < 300:
         out.append(f"fewer than 300 distinct non-trivial requests ({len(m['nontrivial'])})")
     return out
